@@ -3,7 +3,7 @@
    handler and of the __str__ of the dataclass it returns); DecoderDSL.render is their semantics, validated
    string-exactly against str(trace) for every row by tools/props/C09.py. *)
 From Coq Require Import String ZArith NArith List Bool.
-From Kd Require Import theories.Base theories.Printers theories.DecoderDSL theories.DecoderDeps theories.DecoderProps
+From Kd Require Import theories.Base theories.Printers theories.DecoderDSL theories.DecoderDeps theories.DecoderProps theories.DecoderWindow
   gen.GenEnums gen.GenDecoders.
 Import ListNotations.
 Open Scope N_scope.
@@ -67,6 +67,13 @@ Proof.
   intros key c H X X' Hin. apply call_part_ignores_end.
   pose proof c09_sweep_call_free_of_end as S. rewrite forallb_forall in S. apply (S _ Hin).
 Qed.
+
+(* whatever lies between START and END besides the lookups is not read: the call part comes from the FIRST record of the
+   window (and the lookups), never from another event's words *)
+Theorem c09_call_from_START_record : forall lk gstr nocancel enums h row s mid e,
+  render_row enums h (ctx_of_window lk gstr nocancel (s :: mid ++ [e])) row
+  = render_row enums h (ctx_of_window lk gstr nocancel (s :: filter (fun x => lk (w_code x)) mid ++ [e])) row.
+Proof. intros. apply rendering_ignores_other_records. Qed.
 
 Example c09_nontrivial :
   let X := mkCtx [3; 0x1000; 16; 99] [0; 16; 0; 0] 7 7 [] [] (fun _ => None) false in
